@@ -9,6 +9,9 @@ package iam
 import (
 	"context"
 	"crypto"
+	"io"
+	"net/http"
+	"strings"
 	"testing"
 
 	"github.com/lestrrat-go/jwx/v2/jwk"
@@ -17,6 +20,7 @@ import (
 	"github.com/nuts-foundation/nuts-node/auth"
 	"github.com/nuts-foundation/nuts-node/auth/client/iam"
 	"github.com/nuts-foundation/nuts-node/auth/oauth"
+	"github.com/nuts-foundation/nuts-node/core"
 	"github.com/nuts-foundation/nuts-node/vdr/resolver"
 	"go.uber.org/mock/gomock"
 	"pgregory.net/rapid"
@@ -26,16 +30,28 @@ import (
 
 type c17JarCase struct {
 	V jose.Variant `json:"v"`
+	// Source is the state of the two key sources of jar.validate (absent in replay files written before the dimension existed = honest):
+	// "" honest | config-fault (retrieving the client's OpenID configuration fails with Fault) | resolver-fault (DID resolution
+	// fails with Fault) | keyset-empty | keyset-other-key-same-kid (the client publishes ANOTHER key under the signer's key id) |
+	// keyset-other-party (the client publishes only a key of an unrelated party under that party's key id)
+	Source string     `json:"source,omitempty"`
+	Fault  jose.Fault `json:"fault,omitempty"`
 }
+
+var c17JarSources = []string{"config-fault", "config-fault", "config-fault", "resolver-fault", "keyset-empty", "keyset-other-key-same-kid", "keyset-other-party"}
 
 const c17ClientID = "https://example.com/oauth2/victim"
 const c17JarVictimDID = "did:web:example.com:iam:victim"
 
 type c17JarDIDResolver struct {
 	docs map[string]*did.Document
+	fail error
 }
 
 func (r *c17JarDIDResolver) Resolve(id did.DID, _ *resolver.ResolveMetadata) (*did.Document, *resolver.DocumentMetadata, error) {
+	if r.fail != nil {
+		return nil, nil, r.fail
+	}
 	if d, ok := r.docs[id.String()]; ok {
 		return d, &resolver.DocumentMetadata{}, nil
 	}
@@ -70,7 +86,20 @@ func (r *c17JarDIDResolver) add(kid string, key crypto.PublicKey, meta map[strin
 }
 
 func c17JarGen(t *rapid.T) c17JarCase {
-	return c17JarCase{V: jose.Gen(t, jose.GenOpts{Near: true, JWKMeta: true})}
+	c := c17JarCase{V: jose.Gen(t, jose.GenOpts{Near: true, JWKMeta: true})}
+	if rapid.IntRange(0, 9).Draw(t, "key-source") < 4 {
+		c.Source = rapid.SampledFrom(c17JarSources).Draw(t, "source")
+		if c.Source == "config-fault" || c.Source == "resolver-fault" {
+			c.Fault = jose.GenFault(t, "fault")
+		}
+	}
+	return c
+}
+
+// c17JarHTTPError is the typed error auth/client/iam returns for a non-200 answer of the well-known endpoint: what
+// core.TestResponseCode makes of the response.
+func c17JarHTTPError(status int) error {
+	return core.TestResponseCode(http.StatusOK, &http.Response{StatusCode: status, Body: io.NopCloser(strings.NewReader(`{"error":"verif"}`))})
 }
 
 func c17JarRun(x *h.Ctx, c c17JarCase) {
@@ -96,11 +125,24 @@ func c17JarRun(x *h.Ctx, c c17JarCase) {
 	var obs jose.Observation
 	// honest DID resolution (every DID has exactly its own document) under the real DIDKeyResolver; the attacker's key id
 	// may be a near miss of the victim's DID and resolves to the attacker's own document
+	source := c.Source
+	switch source {
+	case "", "keyset-empty", "keyset-other-key-same-kid", "keyset-other-party":
+	case "config-fault", "resolver-fault":
+		if !c.Fault.Is() {
+			c.Fault = jose.Fault{Kind: "generic"}
+		}
+	default:
+		source = ""
+	}
 	dids := &c17JarDIDResolver{docs: map[string]*did.Document{}}
+	if source == "resolver-fault" {
+		dids.fail = c.Fault.Err("https://example.com/iam/victim/did.json", c17JarHTTPError, resolver.ErrNotFound)
+	}
 	dids.add(w.Kids[jose.Victim], keys[jose.Victim].Public(), meta)
 	dids.add(w.Kids[jose.Attacker], keys[jose.Attacker].Public(), meta)
 	realResolver := resolver.DIDKeyResolver{Resolver: dids}
-	if c.V.Near != "" {
+	if c.V.Near != "" && dids.fail == nil {
 		_, rerr := realResolver.ResolveKeyByID(w.Kids[jose.Attacker], nil, resolver.AssertionMethod)
 		x.Classf("near-fixture:%s:attacker-key-resolvable=%v", c.V.Near, rerr == nil)
 	}
@@ -110,17 +152,40 @@ func c17JarRun(x *h.Ctx, c c17JarCase) {
 			obs.KidsAsked = append(obs.KidsAsked, kid)
 			return realResolver.ResolveKeyByID(kid, md, rt)
 		})
-	// the client's published key set: the victim's key only
+	// the client's published key set: the victim's key only (honest), or one of the key-set states
 	set := jwk.NewSet()
-	vk, err := jwk.FromRaw(keys[jose.Victim].Public())
-	x.NoErr(err, "jwk.FromRaw")
-	x.NoErr(vk.Set(jwk.KeyIDKey, w.Kids[jose.Victim]), "set kid")
-	x.NoErr(set.AddKey(vk), "add key")
+	publish := func(pub crypto.PublicKey, kid string) {
+		k, err := jwk.FromRaw(pub)
+		x.NoErr(err, "jwk.FromRaw")
+		x.NoErr(k.Set(jwk.KeyIDKey, kid), "set kid")
+		x.NoErr(set.AddKey(k), "add key")
+	}
+	outsider := jose.GetKey(jose.P256, 3) // a key of nobody in the case
+	switch source {
+	case "keyset-empty":
+	case "keyset-other-key-same-kid":
+		// whoever signs: the key the client publishes under that key id is not the signer's
+		for _, kid := range []string{w.Kids[jose.Victim], w.Kids[jose.Attacker], w.Kids["unknown"]} {
+			if _, dup := set.LookupKeyID(kid); !dup {
+				publish(outsider.Public(), kid)
+			}
+		}
+	case "keyset-other-party":
+		publish(outsider.Public(), "did:web:example.com:iam:outsider#0")
+	default:
+		publish(keys[jose.Victim].Public(), w.Kids[jose.Victim])
+	}
+	configAsked := 0
 	iamClient := iam.NewMockClient(ctrl)
 	iamClient.EXPECT().OpenIDConfiguration(gomock.Any(), gomock.Any()).AnyTimes().DoAndReturn(
 		func(_ context.Context, clientID string) (*oauth.OpenIDConfiguration, error) {
 			if clientID != c17ClientID {
 				x.Fatalf("OpenID configuration requested for %q", clientID)
+			}
+			configAsked++
+			if source == "config-fault" {
+				// auth/client/iam: HTTPClient returns the typed error, OpenID4VPClient wraps it once; Fault.Wrap adds the layers
+				return nil, c.Fault.Err(clientID+"/.well-known/openid-configuration", c17JarHTTPError, nil)
 			}
 			return &oauth.OpenIDConfiguration{Issuer: clientID, Subject: clientID, JWKs: set}, nil
 		})
@@ -136,6 +201,30 @@ func c17JarRun(x *h.Ctx, c c17JarCase) {
 			obs.Err += ": " + oe.InternalError.Error()
 		}
 	}
+	if source != "" {
+		// fail closed: while the client's key set (or the signer's DID document) cannot vouch for the signer key, nothing is
+		// accepted, whatever the token and whatever the reason the key could not be established
+		label := source
+		if c.Fault.Is() && (source == "config-fault" || source == "resolver-fault") {
+			label += ":" + c.Fault.Kind
+		}
+		vd := jose.Truth(w, b.F)
+		x.Classf("source:%s:accepted=%v", label, obs.Accepted)
+		x.Classf("source-failure:%s:token-%s", source, map[bool]string{true: "must-reject-anyway", false: "otherwise-acceptable"}[vd.MustReject])
+		if source == "config-fault" {
+			x.Classf("config-fault:reached-config-fetch=%v:wrap=%d", configAsked > 0, c.Fault.Wrap)
+		}
+		x.Class("t:" + c.V.T)
+		if b.F.Parses {
+			x.NonTrivial()
+		}
+		if obs.Accepted {
+			x.Violate("C17:jar:accepted:key-source-"+label, "request object accepted although the key source was %q (fault %+v, template %s, token verdict %q); key ids asked: %q; token=%s",
+				source, c.Fault, c.V.T, vd.Reason, obs.KidsAsked, b.Token)
+		}
+		return
+	}
+	x.Class("source:honest")
 	fs, classes, nt := jose.Judge("jar", w, c.V, b, obs)
 	for _, f := range fs {
 		x.Violate(f.Sig, "%s", f.Msg)
